@@ -107,12 +107,12 @@ func (t *traceStats) summarize(c *fw.Case, valid bool) (string, bool) {
 // modelCase is one (universe, instances) comparison between the library and the reference model.
 type modelCase struct {
 	priorRoots []string // roots resolved earlier through the same (then caching) Loader
-	draft    refmodel.Draft
-	rootText string
-	baseURI  string
-	docs     map[string]string // loader documents (JSON text) by absolute URI
-	loadErr  map[string]bool
-	noLoader bool
+	draft      refmodel.Draft
+	rootText   string
+	baseURI    string
+	docs       map[string]string // loader documents (JSON text) by absolute URI
+	loadErr    map[string]bool
+	noLoader   bool
 }
 
 func (mc *modelCase) witness(extra map[string]any) map[string]any {
